@@ -77,3 +77,33 @@ Definition check_order (hull : list Z) (ccw : bool) : Z :=
 Definition check_farthest (poly : list (@V2 FNum)) (i j : Z) : Z :=
   let r := @farthest_pair FNum poly in
   if (Nat.eqb (fst r) (Z.to_nat i) && Nat.eqb (snd r) (Z.to_nat j))%bool then 0%Z else 8%Z.
+
+(* dense mesh sampling (Model/Sampling.v): the whole point list, in order; 100 when a decision of the lattice construction
+   (small-face test, choice of the corner, lattice counts, the hypotenuse test) is within 1e-9 of its threshold; 9 otherwise
+   when the lists differ *)
+From EG Require Import Model.Sampling.
+Notation F3 := (@V3 FNum).
+Definition p39 (a b : F3) : bool := c9 (x3 a) (x3 b) && c9 (y3 a) (y3 b) && c9 (z3 a) (z3 b).
+Fixpoint all2p (l1 l2 : list F3) : bool :=
+  match l1, l2 with [], [] => true | a :: l1', b :: l2' => p39 a b && all2p l1' l2' | _, _ => false end.
+Definition dense_ambiguous (fuel : nat) (a b c : F3) (s : float) : bool :=
+  let center := @mean_tri FNum a b c in
+  let da := @dist3 FNum a center in let db := @dist3 FNum b center in let dc := @dist3 FNum c center in
+  if c9 da s || c9 db s || c9 dc s then true
+  else if (da <? s) && (db <? s) && (dc <? s) then false
+  else
+    let ua := @sub3 FNum b a in let va := @sub3 FNum c a in
+    let ub := @sub3 FNum a b in let vb := @sub3 FNum c b in
+    let uc := @sub3 FNum a c in let vc := @sub3 FNum b c in
+    let aa := abs (@angle3 FNum ua va) in let ab := abs (@angle3 FNum ub vb) in let ac := abs (@angle3 FNum uc vc) in
+    if c9 aa ab || c9 aa ac || c9 ab ac then true
+    else
+      let '(u, v) := if (aa <? ab) && (aa <? ac) then (ua, va) else if (ab <? aa) && (ab <? ac) then (ub, vb) else (uc, vc) in
+      let nu := @norm3 FNum u / s in let nv := @norm3 FNum v / s in
+      c9 nu (f_rint nu) || c9 nv (f_rint nv) ||
+      existsb (fun ui => existsb (fun vi => c9 (@nofnat FNum ui / nu + @nofnat FNum vi / nv) 1) (@range_below FNum fuel 0 nv)) (@range_below FNum fuel 0 nu).
+Definition check_dense (verts : list F3) (faces : list (Z * Z * Z)) (s : float) (r : list F3) : Z :=
+  let fuel := 4000%nat in
+  let fs := map (fun f => let '(i, j, k) := f in (Z.to_nat i, Z.to_nat j, Z.to_nat k)) faces in
+  if existsb (fun f => let '(i, j, k) := f in dense_ambiguous fuel (nth i verts (0, 0, 0)) (nth j verts (0, 0, 0)) (nth k verts (0, 0, 0)) s) fs then 100%Z
+  else if all2p (@sample_dense FNum fuel verts fs s) r then 0%Z else 9%Z.
